@@ -214,8 +214,16 @@ type hbGap struct {
 	gap time.Duration
 }
 
-func startHeartbeat() *heartbeat {
+// If dir is not empty every beat also creates, stats and removes a small file there, so that a
+// stalled filesystem (journal blocked behind write-back on a busy machine) shows up as a gap
+// just like a stalled scheduler does: the code under test needs both to make progress.
+func startHeartbeat(dir string) *heartbeat {
 	h := &heartbeat{stop: make(chan struct{}), done: make(chan struct{}), last: time.Now()}
+	probe := ""
+	if dir != "" {
+		os.MkdirAll(dir, 0o755)
+		probe = filepath.Join(dir, fmt.Sprintf(".verif-heartbeat-%d", os.Getpid()))
+	}
 	go func() {
 		defer close(h.done)
 		for {
@@ -223,6 +231,11 @@ func startHeartbeat() *heartbeat {
 			case <-h.stop:
 				return
 			case <-time.After(50 * time.Millisecond):
+			}
+			if probe != "" {
+				os.WriteFile(probe, []byte("x"), 0o600)
+				os.Lstat(probe)
+				os.Remove(probe)
 			}
 			now := time.Now()
 			h.mu.Lock()
